@@ -19,6 +19,17 @@ from .core import ClassInfo, Module, Repo, dotted, unparse
 from .fold import Abstract, FoldKeyError, Folder, Sym, Unfoldable
 
 
+CHECK_ASSERTS: List[bool] = []  # non-empty while a rule wants `assert` statements evaluated (see checking_asserts)
+
+
+class checking_asserts:
+    def __enter__(self) -> None:
+        CHECK_ASSERTS.append(True)
+
+    def __exit__(self, *a: Any) -> None:
+        CHECK_ASSERTS.pop()
+
+
 class Raised(Exception):
     """the evaluated code reached `raise K(...)`"""
 
@@ -306,6 +317,15 @@ class Evaluator(Folder):
             r.exc = exc_obj  # type: ignore
             raise r
         elif isinstance(st, (ast.Assert, ast.Pass, ast.Import, ast.ImportFrom, ast.FunctionDef)):
+            if isinstance(st, ast.Assert) and CHECK_ASSERTS:
+                # (only where a rule asks for it) an assertion that evaluates to false is the AssertionError it would be;
+                # one that cannot be evaluated over the rule's operands stays the assumption it is everywhere else
+                try:
+                    holds = self._truth(st.test)
+                except Unfoldable:
+                    holds = True
+                if not holds:
+                    raise Raised("AssertionError", st)
             if isinstance(st, ast.FunctionDef):
                 from .fold import _LocalFn
 
@@ -557,6 +577,14 @@ Folder._fold = _fold_with_const  # type: ignore
 
 
 # ----------------------------------------------------------------------------------------------------------------------
+def _defines(obj: Any, name: str) -> bool:
+    """does a repository class in the instance's MRO define (or assign) the special method?"""
+    for k in obj._ctx_.repo.mro(obj._cls_):
+        if isinstance(k, ClassInfo) and (name in k.methods or name in k.assigns):
+            return True
+    return False
+
+
 class AObj(Sym):
     """
     an abstract instance of a repository class: the fields given by the rule, everything else answered by abstractly
@@ -594,7 +622,22 @@ class AObj(Sym):
     def __eq__(self, other: Any) -> bool:
         r = self._record()
         if r is None:
-            return self is other
+            if self is other:
+                return True
+            # inside an evaluation, containers of the evaluated program (sets, dict keys, `in`, list.index ...) compare
+            # instances the way Python would: through the class's own __eq__
+            from .fold import _CURRENT
+
+            if "_cls_" in self.__dict__ and _defines(self, "__eq__"):
+                if _CURRENT:
+                    res = aobj_eq(_CURRENT[-1], self, other)
+                else:
+                    try:
+                        res = aobj_eq(Folder({}, self._ctx_.repo, self._cls_.module, self._cls_, None), self, other)
+                    except (Unfoldable, Raised):
+                        return False
+                return False if res is NotImplemented else bool(res)
+            return False
         if isinstance(other, AObj) and other._record() is not None:
             return tuple(self) == tuple(other)
         if isinstance(other, tuple):
@@ -606,7 +649,20 @@ class AObj(Sym):
 
     def __hash__(self) -> int:
         r = self._record()
-        return id(self) if r is None else hash(tuple(self))
+        if r is not None:
+            return hash(tuple(self))
+        if "_cls_" in self.__dict__ and (_defines(self, "__hash__") or _defines(self, "__eq__")):
+            # the class's own __hash__ (hash-based containers of the evaluated program group instances as Python would);
+            # outside an evaluation a value that cannot be hashed this way falls back to its identity
+            from .fold import _CURRENT, _abs_hash
+
+            if _CURRENT:
+                return _abs_hash(_CURRENT[-1], self)
+            try:
+                return _abs_hash(Folder({}, self._ctx_.repo, self._cls_.module, self._cls_, None), self)
+            except (Unfoldable, Raised):
+                return id(self)
+        return id(self)
 
     def __bool__(self) -> bool:
         # Python's rule: the class's own __bool__, else its __len__ compared with zero, else true
